@@ -76,3 +76,89 @@ func VerifC16GrainIdle(sys ActorSystem, id *GrainIdentity) bool {
 	}
 	return p.schedState.Load() == dispatchIdle && p.mailbox.IsEmpty() && (p.responses == nil || p.responses.IsEmpty())
 }
+
+// ---- a grain as the requester ----------------------------------------------------
+
+func verifC16Grain(sys ActorSystem, id *GrainIdentity) *grainPID {
+	x, ok := sys.(*actorSystem)
+	if !ok || id == nil {
+		return nil
+	}
+	p, _ := x.grains.Get(id.String())
+	return p
+}
+
+// VerifC16GrainTell enqueues message into the grain's user mailbox the way TellGrain does, without
+// waiting for the grain's acknowledgement (TellGrain blocks until the handler acks or 5s pass, which a
+// paused or parked grain never does).
+func VerifC16GrainTell(sys ActorSystem, id *GrainIdentity, message any) error {
+	x := sys.(*actorSystem)
+	pid, err := x.ensureGrainProcess(context.Background(), id)
+	if err != nil {
+		return err
+	}
+	gctx := getGrainContext()
+	gctx.build(context.Background(), pid, x, id, message, grainTell)
+	pid.receive(gctx)
+	return nil
+}
+
+// VerifC16GrainCounters: inFlight, blocking, tracked states, queued user messages, queued responses.
+func VerifC16GrainCounters(sys ActorSystem, id *GrainIdentity) (inFlight, blocking int64, states int, queued, responses int64) {
+	p := verifC16Grain(sys, id)
+	if p == nil {
+		return -1, -1, -1, -1, -1
+	}
+	queued = p.mailbox.Len()
+	if p.responses != nil {
+		responses = p.responses.Len()
+	}
+	r := p.reentrancy.Load()
+	if r == nil {
+		return -1, -1, -1, queued, responses
+	}
+	return r.inFlightCount.Load(), r.blockingCount.Load(), r.requestStates.Len(), queued, responses
+}
+
+// VerifC16GrainFireTimeout does what the request's timer goroutine does when the timer fires.
+func VerifC16GrainFireTimeout(sys ActorSystem, id *GrainIdentity, corr string) {
+	if p := verifC16Grain(sys, id); p != nil {
+		_ = p.enqueueAsyncError(context.Background(), corr, gerrors.ErrRequestTimeout)
+	}
+}
+
+// VerifC16GrainPoison does for one grain what the system shutdown does for all: queue-routed
+// cancellation of the in-flight requests, then a PoisonPill through the user mailbox.
+func VerifC16GrainPoison(sys ActorSystem, id *GrainIdentity) {
+	x := sys.(*actorSystem)
+	p := verifC16Grain(sys, id)
+	if p == nil {
+		return
+	}
+	p.enqueueInFlightCancellations()
+	gctx := getGrainContext()
+	gctx.build(context.Background(), p, x, p.getIdentity(), new(PoisonPill), grainTell)
+	p.receive(gctx)
+}
+
+// VerifC16GrainProcessing reports whether a worker owns the grain's turn.
+func VerifC16GrainProcessing(sys ActorSystem, id *GrainIdentity) bool {
+	p := verifC16Grain(sys, id)
+	return p != nil && p.schedState.Load() == dispatchProcessing
+}
+
+// VerifC16GrainSettled: no turn in progress and nothing the grain could process now
+// (a paused grain keeps its user mailbox; that counts as settled).
+func VerifC16GrainSettled(sys ActorSystem, id *GrainIdentity) bool {
+	p := verifC16Grain(sys, id)
+	if p == nil {
+		return true
+	}
+	return p.schedState.Load() == dispatchIdle && !p.hasPendingWork()
+}
+
+// VerifC16GrainActive reports whether the grain is activated.
+func VerifC16GrainActive(sys ActorSystem, id *GrainIdentity) bool {
+	p := verifC16Grain(sys, id)
+	return p != nil && p.isActive()
+}
